@@ -245,6 +245,11 @@ func (r *c12Runner) checkpoint(l *c12Log) bool {
 		if cp.Origin != ref.Origin || cp.N != ref.N || verifmc.Hash(cp.Hash) != ref.Root {
 			r.viol("checkpoint-unsigned", "%s returned (%q, %d, %x), the signed note says (%q, %d, %x)", what, cp.Origin, cp.N, cp.Hash, ref.Origin, ref.N, ref.Root)
 		}
+		// The RFC 6962 tree head signature covers (size, root, timestamp) only:
+		// extension lines are content the configured key never signed.
+		if ref.Ext != "" || cp.Extension != "" {
+			r.viol("checkpoint-unsigned", "%s returned a checkpoint with extension lines (%q) that the configured key's signature does not cover", what, cp.Extension)
+		}
 		if n == nil || !bytes.HasPrefix(served, []byte(n.Text+"\n")) {
 			r.viol("checkpoint-unsigned", "%s returned a note whose text is not the signed text", what)
 		}
